@@ -608,8 +608,8 @@ def run_e(case: dict) -> Outcome:
         returned: list = []
         orig_add = jb.add
 
-        def add(packet):
-            r = orig_add(packet)
+        def add(packet, *a, **kw):
+            r = orig_add(packet, *a, **kw)
             returned.append(r)
             return r
 
